@@ -16,7 +16,7 @@ import (
 )
 
 var (
-	identifier     = regexp.MustCompile("^[A-Za-z]+[A-Za-z0-9]")
+	identifier     = regexp.MustCompile("^[A-Za-z]+[A-Za-z0-9]*")
 	prefixVariable = regexp.MustCompile("{\\w*}")
 	defaultPrefix  = &ScopePrefix{String: "", Variables: make([]string, 0)}
 )
